@@ -183,6 +183,8 @@ func evalC04(c c04Case, o *Obs) error {
 						return fmt.Errorf("%s: re-parse failed: %v", where, err)
 					}
 				}
+				var sibs []*hdkeychain.ExtendedKey
+				var sibWant []string
 				for _, idx := range order {
 					got, err := obj.Child(idx)
 					want, rerr := r.child(idx)
@@ -191,6 +193,13 @@ func evalC04(c c04Case, o *Obs) error {
 					}
 					if err != nil || got.String() != want.String() {
 						return fmt.Errorf("%s: Child(%d) derived from an object that had derived %v before = %v (err %v), BIP32 gives %s", where, idx, order, got, err, want.String())
+					}
+					sibs, sibWant = append(sibs, got), append(sibWant, want.String())
+				}
+				// ... and a child stays what it is when its siblings are derived after it
+				for i, sk := range sibs {
+					if sk.String() != sibWant[i] {
+						return fmt.Errorf("%s: child %d of %v serialises as %s after a later sibling was derived, BIP32 gives %s", where, i, order, sk.String(), sibWant[i])
 					}
 				}
 			}
